@@ -42,6 +42,10 @@ class Falsy:
         return 0
 
 
+OTHER_TYPES = (TimeoutError, asyncio.TimeoutError, asyncio.QueueEmpty, asyncio.QueueFull, KeyError, LookupError, OSError, AssertionError,
+               asyncio.InvalidStateError, EOFError, ConnectionResetError, asyncio.IncompleteReadError if False else BufferError)
+
+
 class Unprintable:
     """An item that cannot be printed."""
 
@@ -79,7 +83,7 @@ def decode(data: bytes) -> dict:
             body = []
             for _ in range(d.i(0, 2)):
                 body.append(["wait"] if d.p(0.55) else ["yield", d.i(1, 3)])
-            prog["steps"].append({"op": "consumer", "body": body, "end": d.pick(["ret", "ret", "raise", "ret", "raise", "raise-nasty", "raise-stop"]), "n": d.i(1, 2),
+            prog["steps"].append({"op": "consumer", "body": body, "end": d.pick(["ret", "ret", "raise", "ret", "raise", "raise-nasty", "raise-stop", "raise-type:%d" % d.i(0, 11)]), "n": d.i(1, 2),
                                   "swallow": d.p(0.1), "nested": ("other" if d.p(0.3) else True) if d.p(0.2) else False})
         elif r < 46:
             prog["steps"].append({"op": "agen", "how": d.pick(["aclose", "aclose", "exhaust", "throw"])})
@@ -213,6 +217,11 @@ class QRun:
                     if spec["end"] == "raise":
                         self.labels.add("body:raised")
                         raise BodyError()
+                    if spec["end"].startswith("raise-type"):
+                        # the block may be left by any exception type: a time-out of something awaited inside, an error of another queue, ...
+                        self.labels.add("body:raised")
+                        self.labels.add("body:raised-other-type")
+                        raise OTHER_TYPES[int(spec["end"].split(":")[1]) % len(OTHER_TYPES)]("body")
                     if spec["end"] == "raise-stop":
                         # e.g. next() on an exhausted iterator inside the block: an exception like any other as far as the block goes
                         self.labels.add("body:raised")
@@ -242,6 +251,8 @@ class QRun:
             pass
         except ValueError as e:
             self.fail("mark/task_done-called-too-often", str(e))
+        except OTHER_TYPES:
+            pass
 
     async def agen_consumer(self, rec: dict, how: str) -> None:
         """'async with queue as item' inside an async generator that is closed / thrown into while suspended in the block."""
@@ -458,7 +469,7 @@ def sweep_cases(tier: str) -> List[dict]:
     bodies = [[], [["yield", 1]], [["wait"]], [["yield", 2], ["wait"]]]
     for maxsize in (0, 1):
         for body in bodies:
-            for end in ("ret", "raise", "raise-nasty", "raise-stop"):
+            for end in ("ret", "raise", "raise-nasty", "raise-stop", "raise-type:0", "raise-type:2"):
                 for ncons in (1, 2):
                     for nput in (0, 1, 2, 3):
                         for put_first in (True, False):
